@@ -248,7 +248,12 @@ class ArgTypeExpander:
                     assert formal_name is not None
                 else:
                     # Pick an arbitrary item if no specified keyword is expected.
-                    formal_name = (set(actual_type.items.keys()) - self.kwargs_used).pop()
+                    unused = set(actual_type.items.keys()) - self.kwargs_used
+                    if not unused:
+                        # All keys were used already, for example for another '**' argument
+                        # with the same keys (the call fails at runtime, but we must not crash).
+                        unused = set(actual_type.items.keys())
+                    formal_name = unused.pop()
                 self.kwargs_used.add(formal_name)
                 return actual_type.items[formal_name]
             elif isinstance(actual_type, Instance) and is_subtype(
